@@ -2,9 +2,14 @@ package sim
 
 import (
 	"bytes"
+	"errors"
 	"fmt"
+	"io"
 	"strings"
 	"testing"
+	"time"
+
+	"github.com/wkhere/bcl"
 
 	"verifharness/prng"
 	"verifharness/simio"
@@ -75,13 +80,80 @@ func c13LoadOpt(sc *Scenario, data []byte, script []simio.ReadStep, what string,
 	if disasm {
 		what += " with OptDisasm"
 	}
+	c13Judge(sc, lr, data, script, what, o, sig, map[string]int{"disasm": b2i(disasm)})
+}
+
+// usedProg is a Prog that already holds a program with many lines and constants.
+func usedProg() (*bcl.Prog, *bytes.Buffer, *bytes.Buffer) {
+	var out, log bytes.Buffer
+	var sb strings.Builder
+	for i := 0; i < 300; i++ {
+		fmt.Fprintf(&sb, "eval %d\n\n# c\n", 1000+i)
+	}
+	sb.WriteString("def t \"n\" { f = 1 }\nprint \"earlier\"\n")
+	p, _ := bcl.Parse([]byte(sb.String()), "earlier.bcl", bcl.OptOutput(&out), bcl.OptLogger(&log))
+	return p, &out, &log
+}
+
+// c13LoadVariant covers the other ways a truncated file reaches the loader: through the Load
+// method of a Prog that already held a program; twice into the same Prog (a retry after the
+// first failure); through a reader that reports the end of the data as an error of its own
+// (a decompressor's unexpected EOF, a failing disk) instead of io.EOF.
+func c13LoadVariant(sc *Scenario, data []byte, script []simio.ReadStep, what string, o *Outcome, sig string, variant int) {
+	lr := &loadResult{Out: &bytes.Buffer{}, Log: &bytes.Buffer{}}
+	done := make(chan struct{})
+	go func() {
+		defer close(done)
+		defer func() {
+			if x := recover(); x != nil {
+				lr.Panic = panicSig(x)
+			}
+		}()
+		switch variant {
+		case 1: // used Prog
+			p, _, _ := usedProg()
+			lr.Err = p.Load(&simio.SimReader{Data: data, Script: script})
+			lr.Prog = p
+		case 2: // twice into one Prog: the second attempt must fail the same way, not hang
+			p, _, _ := usedProg()
+			p.Load(&simio.SimReader{Data: data, Script: script})
+			lr.Err = p.Load(&simio.SimReader{Data: data})
+			lr.Prog = p
+		case 3:
+			lr.Prog, lr.Err = bcl.LoadProg(&simio.SimReader{Data: data, Script: MarkEOF(script, len(data)), EndErr: io.ErrUnexpectedEOF}, "n", bcl.OptOutput(lr.Out), bcl.OptLogger(lr.Log))
+		default:
+			lr.Prog, lr.Err = bcl.LoadProg(&simio.SimReader{Data: data, Script: script, EndErr: errDisk}, "n", bcl.OptOutput(lr.Out), bcl.OptLogger(lr.Log))
+		}
+	}()
+	select {
+	case <-done:
+	case <-time.After(20 * time.Second):
+		c := sc.Clone()
+		c.Class = "single"
+		c.SetBlob("data", data)
+		c.Reads = script
+		c.SetInt("variant", variant)
+		o.Evals++
+		o.viol("C13", "hang", sig+":load does not return", fmt.Sprintf("Load did not return within 20s on %s (%s)", what, c13VariantName[variant]), c)
+		return
+	}
+	Beat()
+	c13Judge(sc, lr, data, script, what+" ("+c13VariantName[variant]+")", o, sig, map[string]int{"variant": variant})
+}
+
+var c13VariantName = []string{"", "Load into a used Prog", "second Load into the same Prog", "reader ends with io.ErrUnexpectedEOF", "reader ends with an I/O error"}
+var errDisk = errors.New("simio: read failed (EIO)")
+
+func c13Judge(sc *Scenario, lr *loadResult, data []byte, script []simio.ReadStep, what string, o *Outcome, sig string, extra map[string]int) {
 	o.Evals++
 	concrete := func() *Scenario {
 		c := sc.Clone()
 		c.Class = "single"
 		c.SetBlob("data", data)
 		c.Reads = script
-		c.SetInt("disasm", b2i(disasm))
+		for k, v := range extra {
+			c.SetInt(k, v)
+		}
 		return c
 	}
 	switch {
@@ -95,7 +167,11 @@ func c13LoadOpt(sc *Scenario, data []byte, script []simio.ReadStep, what string,
 func (c13) Run(t *testing.T, sc *Scenario) *Outcome {
 	o := &Outcome{}
 	if sc.Class == "single" {
-		c13LoadOpt(sc, sc.Blobs["data"], sc.Reads, "the stored bytes of the replay file", o, sc.Str("sigclass"), sc.Int("disasm", 0) == 1)
+		if v := sc.Int("variant", 0); v > 0 {
+			c13LoadVariant(sc, sc.Blobs["data"], sc.Reads, "the stored bytes of the replay file", o, sc.Str("sigclass"), v)
+		} else {
+			c13LoadOpt(sc, sc.Blobs["data"], sc.Reads, "the stored bytes of the replay file", o, sc.Str("sigclass"), sc.Int("disasm", 0) == 1)
+		}
 		o.Nontrivial = true
 		return o
 	}
@@ -183,6 +259,9 @@ func (c13) Run(t *testing.T, sc *Scenario) *Outcome {
 			script := MarkEOF(WithZeros(r, MakeReads(r, k, part, nil), 1), k)
 			// the options LoadProg takes are part of the call: the listing must not be attempted on a failed load
 			c13LoadOpt(sc, torn, script, what+" (seeded partition, zero reads, data+EOF)", o, "prefix", k%2 == 1)
+			if k%3 == 0 || k > len(full)-40 {
+				c13LoadVariant(sc, torn, nil, what, o, "prefix", 1+(k/3)%4)
+			}
 			if len(o.Violations) > 0 {
 				break
 			}
